@@ -268,6 +268,15 @@ Definition add_node_to_bucket (ownid tm : N) (nd : node) (t : table) : lres :=
   | Some b => add_loop add_fuel ownid tm nd (bhi b) t
   end.
 
+(* /repo 5bd3da4: DhtBucket::remove_node and node_now_bad reset the reply cache of EVERY bucket of the
+   parent/child chain (= of the table), because buckets borrow each other's nodes.  Whether the tree
+   under test does so is probed behaviourally (gen/params_c15.py) into Params.dht_cache_chain_invalidate;
+   an older tree (0) keeps the stale caches. *)
+Definition chain_inval : bool := negb (Params.dht_cache_chain_invalidate =? 0).
+Definition inval_tb (bs : list bucket) : list bucket := if chain_inval then map (fun b => set_cache b []) bs else bs.
+Definition inval_tab (t : table) : table := mkTable (inval_tb (tb t)) (tchain t) (town t).
+Definition nodes_count (t : table) : N := lenN (flat_map bnodes (tb t)).
+
 (* ---------------------------------------------------------------- router entry points *)
 Definition with_tab (s : state) (t : table) : state :=
   mkState (own s) (now s) (cur s) (prev s) t (trackers s) (err s).
@@ -312,7 +321,10 @@ Definition node_replied (s : state) (id ip port : N) : state * bool :=
       | LFuel => (with_err s, false)
       | LErr t => (with_err (with_tab s t), false)
       | LDone t false => (with_tab s t, false)
-      | LDone t true =>
+      | LDone t0 true =>
+        (* a bad node was replaced (remove_node) iff the node count did not grow; nothing builds a
+           cache inside add_node_to_bucket, so resetting all caches afterwards is the same *)
+        let t := if nodes_count t0 =? nodes_count (tab s) then inval_tab t0 else t0 in
         match lookup id (tb t) with
         | None => (with_err (with_tab s t), false)
         | Some (k, n) =>
@@ -328,12 +340,14 @@ Definition node_inactive (s : state) (id ip : N) : state * bool :=
   | Some (k, n) =>
     if negb (nip n =? ip) then (s, false)
     else
-      let bs1 := map_bucket k (b_inactive n) (tb (tab s)) in
+      let bs0 := map_bucket k (b_inactive n) (tb (tab s)) in
+      (* node_now_bad *)
+      let bs1 := if (ninact n + 1 =? max_failed) && negb (is_bad n) then inval_tb bs0 else bs0 in
       match lookup id bs1 with
       | None => (with_err s, false)
       | Some (_, n1) =>
         if is_bad n1 && (Params.dht_timeout_remove_node <=? age32 (now s) (nseen n1))
-        then (with_tb s (map_bucket k (b_remove n1) bs1), false)
+        then (with_tb s (inval_tb (map_bucket k (b_remove n1) bs1)), false)
         else (with_tb s bs1, true)
       end
   end.
@@ -341,7 +355,7 @@ Definition node_inactive (s : state) (id ip : N) : state * bool :=
 Definition node_invalid (s : state) (id : N) : state :=
   match lookup id (tb (tab s)) with
   | None => s
-  | Some (k, n) => with_tb s (map_bucket k (b_remove n) (tb (tab s)))
+  | Some (k, n) => with_tb s (inval_tb (map_bucket k (b_remove n) (tb (tab s))))
   end.
 
 (* ---------------------------------------------------------------- closest nodes (full_bucket / build_full_cache) *)
